@@ -137,8 +137,10 @@ def worker(args):
                     st.known[k] += 1
                     return
                 size = len(json.dumps(to_jsonable(case), default=str))
-                if v.bucket not in found or size < found[v.bucket][0]:
-                    found[v.bucket] = (size, case, v.message)
+                lst = found.setdefault(v.bucket, [])
+                lst.append((size, case, v.message))
+                lst.sort(key=lambda t: t[0])
+                del lst[4:]
             elif len(st.samples) < st._sample_cap and st.evaluations % 7 == 1:
                 st.sample(prop.describe(case))
 
@@ -157,10 +159,35 @@ def worker(args):
             pass
 
         # 3. shrink each bucket (bounded)
-        for bucket, (size, case0, msg0) in list(found.items())[:3]:
+        flat = [(b, t) for b, lst in list(found.items())[:4] for t in lst]
+        sigs = set()
+        for bucket, (size, case0, msg0) in flat:
             best = {"case": case0, "size": size, "msg": msg0}
             t1 = time.time()
             shrink_budget = 25 if args.tier == "quick" else 240
+            if prop.shrink_candidates(case0) is not None:
+                # greedy structural shrinking with the property's own candidates
+                cur, msg = case0, msg0
+                improved = True
+                while improved and time.time() - t1 < shrink_budget:
+                    improved = False
+                    for cand in prop.shrink_candidates(cur):
+                        if time.time() - t1 > shrink_budget:
+                            break
+                        if prop.excluded(cand):
+                            continue
+                        try:
+                            v = run_one(prop, cand, Stats())
+                        except Exception:
+                            continue
+                        if v is not None and v.bucket == bucket and not match_known(prop, cand, v, open_names):
+                            cur, msg, improved = cand, v.message, True
+                            break
+                sig = bucket + "|" + str(prop.signature(cur))
+                if sig not in sigs:
+                    sigs.add(sig)
+                    st.violations.append(dict(bucket=sig, message=msg, case=to_jsonable(cur)))
+                continue
 
             def body2(case, bucket=bucket, best=best, t1=t1):
                 if time.time() - t1 > shrink_budget:
